@@ -80,6 +80,12 @@ func c10Setup(prm c10Params) func(c *fw.Ctx, name string) explore.Setup {
 					cl := st.calls[i]
 					ncancel++
 					w.GoHarness(fmt.Sprintf("cancel%d", i), true, func() {
+						if prm.Fam == "rl" {
+							// this family's reads wait for the peer (virtual time has to pass): a
+							// cancellation that can fire at once would always come first, so every
+							// context is cancelled at some moment after 10 s
+							vtime.Sleep(10 * time.Second)
+						}
 						// the cancellation arrives at a scheduler-chosen moment; whether the
 						// call is blocked at that moment is observed atomically with it
 						vs.Point(&vs.Op{Desc: "deliver-cancel", Ready: func() []int { return []int{0} }, Fire: func(int) {
@@ -103,6 +109,13 @@ func c10Setup(prm c10Params) func(c *fw.Ctx, name string) explore.Setup {
 						switch op {
 						case "R1":
 							st.p.Send(peerData(k, frame.OpBinary, true, fill(0xD1, 9)))
+						case "RL":
+							// nothing for 6 s (longer than any internal 5 s bound), then a Ping, then
+							// after another second the message
+							vtime.Sleep(6 * time.Second)
+							st.p.Send(peerFrame(k, frame.Frame{Fin: true, Opcode: frame.OpPing, Payload: []byte("late")}))
+							vtime.Sleep(time.Second)
+							st.p.Send(peerData(k, frame.OpBinary, true, fill(0xD9, 9)))
 						case "R3":
 							st.p.Send(peerData(k, frame.OpText, false, fill(0xD2, 4)))
 							st.p.Send(peerFrame(k, frame.Frame{Fin: true, Opcode: frame.OpPing, Payload: []byte("pp")}))
@@ -182,7 +195,7 @@ func c10Setup(prm c10Params) func(c *fw.Ctx, name string) explore.Setup {
 					cl.startTick = st.tick
 					cl.started = true
 					switch op {
-					case "R1", "R3", "RC", "RE", "R0", "RN", "RP", "RK":
+					case "R1", "R3", "RC", "RE", "R0", "RN", "RP", "RK", "RL":
 						_, _, cl.err = conn.Read(ctx)
 					case "W1", "WL":
 						cl.err = conn.Write(ctx, websocket.MessageBinary, fill(byte(0xA0+i), 10))
@@ -330,6 +343,22 @@ func c10Oracle(c *fw.Ctx, w *vs.World, name string, prm c10Params, st *c10State)
 			}
 		}
 	}
+	// a context bounds only its own call: as long as every earlier call returned nil, a call
+	// whose own context had not been cancelled when it returned (the peer is healthy and
+	// provides everything the program asks for) must return nil as well
+	for _, cl := range st.calls {
+		if !cl.returned {
+			break
+		}
+		if cl.err == nil {
+			continue
+		}
+		if cl.cancelTick == 0 || cl.cancelTick > cl.endTick {
+			violate(c, w, name, "C10/call-fails-with-live-context/"+c10Api(cl.op)+"/"+role, fmt.Sprintf("call %s failed with %q; its own context had not been cancelled when it returned, every earlier call had returned nil and the peer provided what the call needed (connection closed=%v)", cl.op, cl.err, st.p.Closed))
+			return
+		}
+		break
+	}
 	if st.probed {
 		// (i): every call succeeded; every context was cancelled afterwards (or earlier, harmlessly)
 		if st.probeErr != nil {
@@ -432,8 +461,17 @@ func c10ConcSetup(prm c10ConcParams) func(c *fw.Ctx, name string) explore.Setup 
 						switch op {
 						case "WB":
 							cl.err = conn.Write(ctxs[i], websocket.MessageBinary, fill(0xA1, 100))
-						case "WS", "WH":
+						case "WS", "WH", "WJ":
 							chunks := []int{50, 50}
+							if op == "WJ" {
+								// the header fits into the empty write buffer, the payload overflows it by two
+								// bytes: the non-final frame itself reaches the transport
+								first := 4094
+								if k.Client {
+									first = 4090
+								}
+								chunks = []int{first, 10}
+							}
 							if op == "WH" {
 								first := 4092 // server: 4-byte header + 4092 = 4096
 								if k.Client {
@@ -701,7 +739,7 @@ func c10Api(op string) string {
 	case 'P':
 		return "Ping"
 	}
-	if op == "WM" || op == "WS" || op == "WH" {
+	if op == "WM" || op == "WS" || op == "WH" || op == "WJ" {
 		return "Writer"
 	}
 	return "Write"
@@ -769,6 +807,8 @@ func c10Scenarios(tier string) []scenario {
 	build("rw", []string{"R1", "R3", "RE", "R0", "W1", "WM"}, []string{"RN", "RP", "RK", "WB", "WL"}, plain)
 	build("rw", []string{"RC", "W1", "WM"}, []string{"RN"}, flate)
 	build("pw", []string{"P1", "W1"}, []string{"PN", "WL"}, plain)
+	// a read that waits longer than the library's internal 5 s bounds before a control frame arrives
+	build("rl", []string{"RL", "R1", "W1"}, []string{"RN"}, plain)
 	for _, k := range plain {
 		for _, b := range []string{"P", "W", "R"} {
 			for _, cs := range []string{"A", "B", "AB"} {
@@ -790,11 +830,11 @@ func c10Scenarios(tier string) []scenario {
 			scs = append(scs, scenario{Name: prm.name(), Cfg: cfg, Setup: c10ConcSetup(prm), Group: fmt.Sprintf("cc/%s/WS/P-fit/%s", k.String(), cs)})
 		}
 		// the first call is a streaming Writer
-		for _, a := range []string{"WS", "WH"} {
+		for _, a := range []string{"WS", "WH", "WJ"} {
 			for _, b := range []string{"W", "P"} {
 				for _, cs := range []string{"A", "B", "AB"} {
 					for _, dr := range []bool{false, true} {
-						if tier != "thorough" && (dr || cs == "AB" || (a == "WH" && b == "W")) {
+						if tier != "thorough" && (dr || cs == "AB" || (a != "WS" && b == "W")) {
 							continue
 						}
 						prm := c10ConcParams{K: k, A: a, B: b, Cancel: cs, Drain: dr}
